@@ -301,7 +301,8 @@ def divide_split(state):
     """
     if isinstance(state, (int, np.integer)):
         remainder = state % 2
-        half = int(state / 2)
+        # integer division: state / 2 loses precision for large counts
+        half = state // 2
         if random.choice([True, False]):
             return [half + remainder, half]
         else:
